@@ -2,13 +2,15 @@
 # Apply every saved seeded change to /repo in turn, run the check of the property it was written against
 # (quick tier, evidence redirected), restore the tree.  Prints one line per change.
 cd /verif
+. /verif/tools/repo_patch.sh
+repo_require_clean
 mkdir -p work/mut-evidence
 export VERIF_EVIDENCE_DIR=/verif/work/mut-evidence
 for d in seeded/*/mutation_*; do
   p=$(basename $(dirname $d))
-  if ! git -C /repo apply "/verif/$d/patch.diff" 2>/dev/null; then echo "$d: PATCH-DOES-NOT-APPLY"; continue; fi
+  if ! repo_apply "/verif/$d/patch.diff"; then echo "$d: PATCH-DOES-NOT-APPLY"; continue; fi
   out=$(./check "$p" --tier quick 2>&1 | grep -E "^(VIOLATION|OK)" | tail -1)
-  git -C /repo checkout -- . ; git -C /repo clean -fdq py 2>/dev/null
+  repo_restore
   case "$out" in VIOLATION*) echo "$d: caught ($out)";; *) echo "$d: MISSED ($out)";; esac
 done
 git -C /repo status --short
